@@ -104,6 +104,10 @@ struct Scenario {
     /// through the model (Model/SecretFlow.v `w_misfit`)
     #[serde(default)]
     misfit: Option<String>,
+    /// after the run: POST /tasks {tool: bash, args: {command: "env"}} in this execution mode ("pipes" / "pty") and read
+    /// its output - background tasks are tool subprocesses too (ripd tasks/pipes.rs, pty.rs)
+    #[serde(default)]
+    task_env_dump: Option<String>,
 }
 
 #[allow(dead_code)]
@@ -316,6 +320,8 @@ struct ChildSpec {
     /// `rip serve` as the local authority with its output redirected to <data>/authority/authority.log)
     #[serde(default)]
     rip_bin: Option<String>,
+    #[serde(default)]
+    task_env_dump: Option<String>,
 }
 #[derive(Serialize, Deserialize, Debug, Default)]
 struct ChildObs {
@@ -719,6 +725,36 @@ async fn child_drive(spec: &ChildSpec) -> ChildObs {
             tokio::time::sleep(Duration::from_millis(10)).await;
         }
     }
+    if let Some(mode) = &spec.task_env_dump {
+        // a background task that dumps its environment (pipes / pty spawn sites of ripd)
+        let (st, b) = call(&app, &mut raw, &mut obs, "POST", "/tasks", Some(json!({ "tool": "bash", "args": { "command": "env" }, "execution_mode": mode }))).await;
+        let tid = serde_json::from_slice::<Value>(&b).ok().and_then(|v| v["task_id"].as_str().map(String::from)).unwrap_or_default();
+        if tid.is_empty() {
+            obs.errors.push(format!("POST /tasks ({mode}) gave {st} and no task id"));
+        } else {
+            let mut done = false;
+            for _ in 0..24000 {
+                let (_, b) = call(&app, &mut raw, &mut obs, "GET", &format!("/tasks/{tid}"), None).await;
+                obs.bodies.pop();
+                obs.statuses.pop();
+                let stv = serde_json::from_slice::<Value>(&b).unwrap_or(Value::Null);
+                if matches!(stv["status"].as_str(), Some("exited") | Some("failed") | Some("cancelled")) {
+                    done = true;
+                    break;
+                }
+                tokio::time::sleep(Duration::from_millis(10)).await;
+            }
+            if !done {
+                obs.errors.push(format!("task {tid} ({mode}) did not finish"));
+            }
+            let stream = if mode == "pty" { "pty" } else { "stdout" };
+            let (_, out) = call(&app, &mut raw, &mut obs, "GET", &format!("/tasks/{tid}/output?stream={stream}&offset_bytes=0"), None).await;
+            // the dump must be a real one: PATH is always there
+            if !String::from_utf8_lossy(&out).contains("PATH") {
+                obs.errors.push(format!("task env dump ({mode}) shows no PATH: {}", String::from_utf8_lossy(&out).chars().take(200).collect::<String>()));
+            }
+        }
+    }
     let (_, b) = call(&app, &mut raw, &mut obs, "GET", "/config/doctor", None).await;
     obs.doctor_after = serde_json::from_slice(&b).unwrap_or(Value::Null);
     call(&app, &mut raw, &mut obs, "GET", "/tasks", None).await;
@@ -798,7 +834,7 @@ fn script_for(outcome: u8) -> Vec<Scripted> {
         8 => {
             // corpus/C19/b1_printenv.json: the provider asks the shell tool for the key variable (KNOWN_FINDINGS C19/B1)
             let mut first = vec![ev_created("resp_p1")];
-            first.extend(ev_call("call_p", "bash", "{\"command\":\"printenv RIP_OPENRESPONSES_API_KEY\"}"));
+            first.extend(ev_call("call_p", "bash", "{\"command\":\"printenv RIP_OPENRESPONSES_API_KEY; env\"}"));
             vec![Scripted::sse_text(&sse(&first, true)), Scripted::sse_text(&sse(&[ev_created("resp_p2"), ev_delta("done")], true))]
         }
         6 => {
@@ -924,6 +960,7 @@ fn run_once(sc: &Scenario, key: &str, hdr: &str, num: &str) -> RunOut {
         out_dir: root.join("out").display().to_string(),
         doctor_only: c.doctor_only,
         rip_bin: if c.cli { rip_bin().map(|p| p.display().to_string()) } else { None },
+        task_env_dump: c.task_env_dump.clone(),
     };
     let spec_path = root.join("out/spec.json");
     std::fs::write(&spec_path, serde_json::to_vec(&spec).unwrap()).unwrap();
@@ -1670,6 +1707,58 @@ fn gen_startup(rng: &mut Rng, j: u64) -> Scenario {
     sc
 }
 
+/// Tool subprocesses and the authority's environment (B1): the provider asks the shell tool for `printenv <key variable>;
+/// env`, and a background task (pipes / pty) dumps its environment.  The key variables - RIP_OPENRESPONSES_API_KEY, the
+/// OPENAI_API_KEY / OPENROUTER_API_KEY fallbacks, every `{ "env": NAME }` reference of the configuration, used by the
+/// run or not - must not be in what the tool sees.
+fn gen_toolenv(rng: &mut Rng, j: u64) -> Scenario {
+    let mut sc = Scenario { prompt: format!("tool env #{j}"), outcome: 8, oracle_only: true, ..Default::default() };
+    sc.channel = "tool-prints-inherited-env".into();
+    sc.config_home = rng.chance(1, 2);
+    let slot = *rng.pick(&[0u8, 1, 2, 3, 4, 5, 6]);
+    let key = "{{K}}-sk-{{R}}".to_string();
+    match j % 6 {
+        0 => {
+            sc.env.push(("RIP_OPENRESPONSES_ENDPOINT".into(), "{{P}}/v1/responses".into()));
+            sc.env.push(("RIP_OPENRESPONSES_API_KEY".into(), key));
+            sc.task_env_dump = Some("pipes".into());
+        }
+        1 => {
+            sc.thread = true;
+            sc.env.push(("OPENAI_API_KEY".into(), key));
+            sc.layers.push(Layer { slot, providers: vec![ProvSpec { id: "acme".into(), endpoint: Some("{{P}}/v1/responses?via=api.openai.com".into()), ..Default::default() }], model: Some("acme/fixture-model".into()), ..Default::default() });
+        }
+        2 => {
+            sc.thread = true;
+            sc.env.push(("MY_PROVIDER_KEY".into(), key));
+            sc.env.push(("RIP_TASKS_ALLOW_PTY".into(), "1".into()));
+            sc.layers.push(Layer { slot, providers: vec![ProvSpec { id: "acme".into(), endpoint: Some("{{P}}/v1/responses".into()), api_key: Some(KeySpec::Env("MY_PROVIDER_KEY".into())), ..Default::default() }], primary: Some("acme/fixture-model".into()), ..Default::default() });
+            sc.task_env_dump = Some("pty".into());
+        }
+        3 => {
+            // the referenced variable is not used by this run (session path = start-up env configuration, no key at all)
+            sc.secret_unsendable = true;
+            sc.env.push(("RIP_OPENRESPONSES_ENDPOINT".into(), "{{P}}/v1/responses".into()));
+            sc.env.push(("UNUSED_PROVIDER_KEY".into(), key));
+            sc.layers.push(Layer { slot, providers: vec![ProvSpec { id: "other".into(), endpoint: Some("{{P}}/other/v1/responses".into()), api_key: Some(KeySpec::Env("UNUSED_PROVIDER_KEY".into())), ..Default::default() }], ..Default::default() });
+            sc.task_env_dump = Some("pipes".into());
+        }
+        4 => {
+            sc.real_authority = true;
+            sc.env.push(("RIP_OPENRESPONSES_ENDPOINT".into(), "{{P}}/v1/responses".into()));
+            sc.env.push(("RIP_OPENRESPONSES_API_KEY".into(), key));
+            sc.task_env_dump = Some("pipes".into());
+        }
+        _ => {
+            sc.thread = true;
+            sc.real_authority = true;
+            sc.env.push(("OPENROUTER_API_KEY".into(), key));
+            sc.layers.push(Layer { slot, providers: vec![ProvSpec { id: "openrouter".into(), endpoint: Some("{{P}}/api/v1/responses?via=openrouter.ai".into()), ..Default::default() }], model: Some("openrouter/openai/gpt-oss-20b".into()), ..Default::default() });
+        }
+    }
+    sc
+}
+
 /// frames of the two runs' SSE reads with the same seq (an SSE read may lack frames: see `sse_until`)
 fn sse_pairs(a: &[Value], b: &[Value]) -> Vec<(Vec<u8>, Vec<u8>)> {
     let mut out = vec![];
@@ -1894,6 +1983,10 @@ fn main() {
     let n_misfit: u64 = args.extra.get("misfit").and_then(|v| v.parse().ok()).unwrap_or(N_MISFIT as u64 * 7 * if full { 3 } else { 1 });
     for j in 0..n_misfit {
         scenarios.push(gen_misfit(&mut rng, j, full));
+    }
+    let n_toolenv: u64 = args.extra.get("toolenv").and_then(|v| v.parse().ok()).unwrap_or(if full { 24 } else { 6 });
+    for j in 0..n_toolenv {
+        scenarios.push(gen_toolenv(&mut rng, j));
     }
     let n_startup: u64 = args.extra.get("startup").and_then(|v| v.parse().ok()).unwrap_or(if full { 24 } else { 6 });
     for j in 0..n_startup {
